@@ -95,6 +95,13 @@ def gen_cases(tier):
             for h in gen_histories([a, b], 4, "quick"):
                 if len(h) == 4:
                     yield {"kind": "history", "cfgs": descs, "history": h}
+    # clock chains: two accepted replies with every ordered pair of agent clocks (boots / time up, down, boots up with time
+    # down, extremes) - the third request must carry the clock of the second reply
+    for cfg in drivers.k7():
+        for i in range(6):
+            for j in range(6):
+                h = [["get", 0, "sys"], ["reply", 0, "ok", i], ["getbulk", 0, "sys", 1], ["reply", 0, "ok", j], ["get_many", 0, "pair"]]
+                yield {"kind": "history", "cfgs": [cfg.describe()], "history": h}
     for cfg in [Cfg("v1"), Cfg("v2c")] + drivers.k7():
         for v in RNG_VALUES:
             for op in ("get", "getbulk", "refresh"):
